@@ -1,9 +1,9 @@
 /-
 M-Proto proofs, part 4 (C17): concrete witnesses, all by kernel evaluation (`decide`).
-Three of them are NEGATION witnesses for defects of the current code:
-D42 (conflicts are detected on raw strings, files are written at the cleaned join),
-D34 (a Thrift file called "...thrift" makes the core generator leave the output directory),
-D33 (the write loop is not atomic).
+D42 (conflicts were detected on raw strings while files are written at the cleaned join) and
+D34 (a Thrift file called "...thrift" made the core generator leave the output directory) are
+repaired: their former witnesses are regression theorems now. D33 (the write loop is not
+atomic) is NOT repaired and stays a negation witness.
 -/
 import ThriftVerif.Proto.PlanProofs2
 import ThriftVerif.Proto.PathProofs2
@@ -15,33 +15,42 @@ deriving instance DecidableEq for Except
 deriving instance DecidableEq for FS
 end C17Inst
 
-/-- D42: two plugins answer `x.go` and `./x.go`; the raw keys differ, so no conflict is
-reported, and both contents are planned for the same file. -/
-theorem conflict_after_clean_undetected_witness :
+/-- D42 (fixed), regression: two plugins answer `x.go` and `./x.go` — the same file; the plan
+is now refused, in either completion order. -/
+theorem conflict_after_clean_detected_witness :
     generatePlan "/r".toList "/o".toList []
         [some [("x.go".toList, [1])], some [("./x.go".toList, [2])]] [0, 1]
-      = .ok [("/o/x.go".toList, [1]), ("/o/x.go".toList, [2])] := by decide
+      = .error .pluginConflict ∧
+    generatePlan "/r".toList "/o".toList []
+        [some [("x.go".toList, [1])], some [("./x.go".toList, [2])]] [1, 0]
+      = .error .pluginConflict := by decide
 
-/-- the same between the core generator (`a/a.go` for `/r/a.thrift`) and a plugin. -/
-theorem conflict_after_clean_undetected_core_witness :
+/-- the same between the core generator (`a/a.go` for `/r/a.thrift`) and a plugin (`a//a.go`),
+and for one plugin against itself. -/
+theorem conflict_after_clean_detected_core_witness :
     generatePlan "/r".toList "/o".toList [⟨"/r/a.thrift".toList, some [1]⟩]
         [some [("a//a.go".toList, [2])]] [0]
-      = .ok [("/o/a/a.go".toList, [1]), ("/o/a/a.go".toList, [2])] := by decide
+      = .error .mergeConflict ∧
+    generatePlan "/r".toList "/o".toList []
+        [some [("x.go".toList, [1]), ("./x.go".toList, [2])]] [0]
+      = .error .pluginConflict := by decide
 
-/-- D34: `/r/...thrift` (base name ".." + ".thrift"). The common ancestor is `/r`, the
-package path is "..", the Go file is planned at `../...go`, i.e. outside `/o`. -/
-theorem core_path_escapes_dotdot_thrift_witness :
+/-- D34 (fixed), regression: `/r/...thrift` (base name ".." + ".thrift"). The common ancestor
+is `/r`, the package path would be "..": `modulePath` refuses, the command line fails before
+anything is planned. -/
+theorem dotdot_thrift_refused_witness :
     findCommonAncestor ["/r/...thrift".toList] = some "/r".toList ∧
-    modulePath "/r".toList "/r/...thrift".toList = some "../...go".toList ∧
-    within (clean "/o".toList) (join2 "/o".toList "../...go".toList) = false ∧
+    rel "/r".toList (trimSuffix "/r/...thrift".toList thriftSuffix) = some dotdot ∧
+    modulePath "/r".toList "/r/...thrift".toList = none ∧
     cliPlan "/w".toList none "/o".toList [⟨"/r/...thrift".toList, some [7]⟩] [] []
-      = .ok [("/...go".toList, [7])] := by decide
+      = .error .moduleFailed := by decide
 
-/-- with an explicit `--thrift-root` the same file is rejected (its relative path
-"...thrift" happens to start with ".."). -/
+/-- with an explicit `--thrift-root` the same file was and is rejected (its relative path
+"...thrift" happens to start with ".."); a root that is itself a `.thrift` path is refused too. -/
 theorem dotdot_thrift_rejected_with_explicit_root :
     cliPlan "/w".toList (some "/r".toList) "/o".toList [⟨"/r/...thrift".toList, some [7]⟩] [] []
-      = .error .moduleFailed := by decide
+      = .error .moduleFailed ∧
+    modulePath "/r.thrift".toList "/r.thrift".toList = none := by decide
 
 /-- a module outside the given Thrift root is rejected; one inside is planned. -/
 theorem ancestry_examples :
